@@ -492,3 +492,67 @@ def rule_worklist(ctx, rep):
     want = {"R": [1, 2, 3], "F1": [3], "F2": [2, 3], "F0": [2, 3], "C": [2, 3], "P": [2, 3]}
     rep.check(got == want, rule, "backward pass from the retsub blocks", _gen_where(ctx, "backward_analysis"), got, want,
               why="starting from the retsub blocks alone, the backward pass must reach callee entry, call site and entry")
+
+
+FIXPOINT_PROGRAMS = {
+    "fee > 1000, bz to the next line": "#pragma version 6\ntxn Fee\nint 1000\n>\nbz next\nnext:\nint 1\nreturn\n",
+    "fee <= 1000, bnz to the next line": "#pragma version 6\ntxn Fee\nint 1000\n<=\nbnz next\nnext:\nint 1\nreturn\n",
+    "size == 2, bz to the next line": "#pragma version 6\nglobal GroupSize\nint 2\n==\nbz next\nnext:\nint 1\nreturn\n",
+    "index == 0, bnz to the next line": "#pragma version 6\ntxn GroupIndex\nint 0\n==\nbnz next\nnext:\nint 1\nreturn\n",
+    "rekey == zero, bnz to the next line": "#pragma version 6\ntxn RekeyTo\nglobal ZeroAddress\n==\nbnz next\nnext:\nint 1\nreturn\n",
+    "index >= 1, bz as last instruction": "#pragma version 6\nb start\nok:\nint 1\nreturn\nstart:\ntxn GroupIndex\nint 1\n>=\nbz ok\n",
+    "checks after a call whose callee can approve three calls down": (
+        "#pragma version 6\ncallsub s1\ntxn Fee\nint 1000\n<=\nassert\nglobal GroupSize\nint 2\n==\nassert\ntxn RekeyTo\nglobal ZeroAddress\n==\nassert\nint 1\nreturn\n"
+        "s1:\ncallsub s2\nretsub\ns2:\ncallsub s3\nretsub\ns3:\ntxn Amount\nbz back\nint 1\nreturn\nback:\nretsub\n"),
+    "return point that is a jump target, the callee never returns": (
+        "#pragma version 6\ntxn Amount\nbz approve\ncallsub reject\napprove:\nglobal GroupSize\nint 3\n<\nassert\nint 1\nreturn\nreject:\ntxn RekeyTo\nglobal ZeroAddress\n==\nassert\nint 1\nreturn\n"),
+    "return point that is a loop header, the callee never returns": (
+        "#pragma version 6\ntxn Amount\nbz top\ncallsub bail\ntop:\ntxn Fee\nint 1000\n<=\nassert\ntxn Amount\nbnz top\nint 1\nreturn\nbail:\nerr\n"),
+    "check in a subroutine called from a loop": (
+        "#pragma version 6\nloop:\ncallsub chk\ntxn Amount\nbnz loop\nint 1\nreturn\nchk:\ntxn RekeyTo\nglobal ZeroAddress\n==\nassert\nglobal GroupSize\nint 4\n==\nassert\nretsub\n"),
+    "call as the last instruction, the callee returns with a non-zero value on the stack": (
+        "#pragma version 6\nb main\nf:\nint 1\nretsub\nmain:\ncallsub f\n"),
+    "call as the last instruction, the callee checks and returns": (
+        "#pragma version 6\nb main\nf:\ntxn RekeyTo\nglobal ZeroAddress\n==\nassert\nint 1\nretsub\nmain:\ncallsub f\n"),
+    "diamond: one arm checks, the other rejects": (
+        "#pragma version 6\ntxn Amount\nbnz right\ntxn Fee\nint 1000\n<\nassert\nb join\nright:\nerr\njoin:\ntxn GroupIndex\nint 1\n!=\nassert\nint 1\nreturn\n"),
+    "subroutine called from two sites with different checks after them": (
+        "#pragma version 6\ntxn Amount\nbz second\ncallsub f\nglobal GroupSize\nint 2\n==\nassert\nint 1\nreturn\nsecond:\ncallsub f\nglobal GroupSize\nint 3\n==\nassert\nint 1\nreturn\n"
+        "f:\ntxn Fee\nint 1000\n<=\nassert\nretsub\n"),
+}
+
+
+def rule_fixpoint_programs(ctx, rep):
+    rule = "T-FIXPOINT(programs)"
+    rep.rule(rule, "the complete context analysis (parse_teal, construct_function, block/edge constraints, forward and backward passes) evaluated on "
+                   "hand-written programs of the direct-check fragment and a fixed sample of enumerated ones, per governed field, against the "
+                   "independent reference semantics: per block sound (every admitted value kept) and exact; rekey-to verdict 'some path' iff some "
+                   "accepting path admits an arbitrary address. Shapes: branch to the next line per field, branch as last instruction, program "
+                   "exits three calls below a call, a return point that is also a jump target / loop header after a callee that never returns, "
+                   "checks inside a subroutine called from a loop, diamonds, a subroutine shared by two call sites")
+    from .. import thorough, gen
+    env = thorough.fix_env(ctx)
+    where = ctx.path("tealer.analyses.dataflow.transaction_context.generic")
+    progs = dict(FIXPOINT_PROGRAMS)
+    sample = gen.checked_programs(kmain=3, ksub=2, check_names=("none", "size==2", "rekey==zero", "fee<=1000", "index>=1"), cond_names=("free", "size==2", "rekey==zero"),
+                                  stride=9000011, offset=4321)
+    for name, src in sample:
+        progs["enumerated: " + name] = src
+    n = 0
+    for name, src in progs.items():
+        try:
+            bad = thorough.fix_compare(ctx, env, name, src)
+        except PyRaise as e:
+            rep.violation(rule, f"{name}: runs", where, f"RAISES {e.exc} {e.where}", "completes")
+            continue
+        except (RuntimeError, ValueError) as e:
+            raise Unsupported(f"{rule}: {name}: {e}")
+        n += 1
+        if not bad:
+            rep.ok(rule, {"program": name} if n <= 12 else None)
+        if bad:
+            # one finding per program (the construct is the program): all disagreements are listed in the observation
+            rep.violation(rule, name, where, {"program": src, "disagreements": [f"{what}: got {got!r}, reference {want!r}"[:160] for _, _, what, got, want in bad[:6]]},
+                          "no disagreement with the reference semantics", "the computed per-block information differs from the reference semantics of the program")
+    rep.count("programs compared with the reference semantics", n)
+    rep.require(n >= 15, f"only {n} programs compared")
